@@ -3,6 +3,7 @@
 package checks
 
 import (
+	"fmt"
 	"testing"
 
 	"pgregory.net/rapid"
@@ -71,6 +72,43 @@ func TestC04(t *testing.T) {
 		loadRegress(t, f, &c)
 		behBatch(t, c, c04NonTrivial, c04Check, nil)
 		col.Label("regress")
+	}
+	// hand-built: one decorator function declared many times for one tag with argument lists that differ but print
+	// alike, exact repetitions included; as one file and distributed over two and three files
+	if ev.Mine(0) {
+		argLists := [][]cfg.Val{
+			{cfg.Str("x y")}, {cfg.Str("x"), cfg.Str("y")}, {cfg.Int(1)}, {cfg.Str("1")}, {cfg.Float(1.0)}, {cfg.Bool(true)}, {cfg.Str("true")},
+			{cfg.Null()}, {cfg.Str("<nil>")}, nil, {cfg.Str("")}, {cfg.Str("x y")}, {cfg.Str("[x y]")}, {cfg.Str("x"), cfg.Str("y")}, {cfg.Int(1), cfg.Int(2)}, {cfg.Str("1 2")},
+		}
+		var decs []cfg.Decorator
+		for i, a := range argLists {
+			tag := "t"
+			if i%5 == 4 {
+				tag = "u" // a second tag of the same services, interleaved in declaration order
+			}
+			decs = append(decs, cfg.Decorator{Tag: tag, Fn: "fx/lib.Decorate", Args: a})
+		}
+		svcs := []cfg.Service{
+			{Name: "a", Ctor: sp("fx/lib.NewObj"), Tags: []cfg.Tag{{Name: "t"}, {Name: "u"}}},
+			{Name: "b", Ctor: sp("fx/lib.NewObj"), Tags: []cfg.Tag{{Name: "u", Prio: 5}, {Name: "t", Prio: -3}}},
+			{Name: "c", Ctor: sp("fx/lib.NewObj"), Args: []cfg.Val{cfg.Str("!tagged t"), cfg.Str("!tagged u")}},
+		}
+		whole := cfg.Config{Meta: cfg.Meta{Pkg: sp("app")}, Services: svcs, Decorators: decs}
+		var c behCase
+		for _, cut := range [][]int{nil, {6}, {3, 11}} {
+			var files []cfg.Config
+			prev := 0
+			for _, at := range append(cut, len(decs)) {
+				f := cfg.Config{Decorators: decs[prev:at]}
+				if prev == 0 {
+					f.Meta, f.Services = whole.Meta, svcs
+				}
+				files = append(files, f)
+				prev = at
+			}
+			c.Members = append(c.Members, behMember{Files: files, Script: scriptAll(whole), Labels: []string{"hand-built:look-alike-decorator-arguments", fmt.Sprintf("files:%d", len(files))}})
+		}
+		behBatch(t, c, c04NonTrivial, c04Check, nil)
 	}
 	batch := pick(20, 32)
 	setRapidChecks(pick(5, 50))
